@@ -70,7 +70,8 @@ Proof.
 
 (* later operations on the handle fail at once *)
 Theorem c04_later_ops_fail s k tmo mid : is_running s = false -> next_msgid (last s) (inuse s) = Found mid ->
-  exists c, getop (step s (Start k tmo)) (length (ops s)) = Some c /\ o_status c = CErr EOpSend.
+  exists c, getop (step s (Start k tmo)) (length (ops s)) = Some c /\
+    o_status c = match k with KSearch _ => SStartErr EOpSend | _ => CErr EOpSend end.
 Proof. intros Hr Hm. unfold step. rewrite Hm, Hr. unfold getop. cbn. rewrite nth_error_app2, Nat.sub_diag by lia. cbn.
   eexists. split; reflexivity. Qed.
 
@@ -504,7 +505,7 @@ Proof.
         -- unfold is_search. cbn. destruct k; try discriminate. exact I.
     + intros H. change (is_running s = false) in H. congruence.
   - (* driver gone: the tuple comes back in the SendError and is dropped *)
-    set (oerr := onew <| o_status := CErr EOpSend |> <| o_reply := OsClosed |> <| o_rx := false |> <| o_chan := false |>).
+    set (oerr := onew <| o_status := match k with KSearch _ => SStartErr EOpSend | _ => CErr EOpSend end |> <| o_reply := OsClosed |> <| o_rx := false |> <| o_chan := false |>).
     assert (G : forall o, getop (s <| last := mid |> <| inuse ::= cons mid |> <| ops ::= fun l => l ++ [oerr] |>) o =
                           if Nat.ltb o (length (ops s)) then getop s o else if Nat.eqb o (length (ops s)) then Some oerr else None).
     { intros o. unfold getop. cbn [ops set]. destruct (Nat.ltb_spec o (length (ops s))); [now rewrite nth_error_app1|].
@@ -600,12 +601,12 @@ Proof.
     assert (I2 : same_id s2 o c).
     { apply (same_id_irrelevant (drop_entry (smap s1) target close_chan s1)); [reflexivity|]. apply same_id_drop_entry; [apply kpres_close_chan|].
       apply (same_id_irrelevant (drop_entry (rmap s0) target drop_reply s0)); [reflexivity|]. apply same_id_drop_entry; [apply kpres_drop_reply|now apply same_id_refl]. }
-    set (s4 := if fix9 (fx s) then s2 <| inuse ::= rem (o_mid c) |> <| inuse ::= rem target |> else s2 <| inuse ::= rem (o_mid c) |>).
-    assert (X4 : acctx (Some o) (Some o) s4) by (unfold s4; destruct (fix9 (fx s)); apply (acctx_irrelevant _ _ s2); try reflexivity; exact X2).
-    assert (I4 : same_id s4 o c) by (unfold s4; destruct (fix9 (fx s)); apply (same_id_irrelevant s2); try reflexivity; exact I2).
+    set (b9 := fix9 (fx s) && abandon_hit s0 target). set (s4 := if b9 then s2 <| inuse ::= rem (o_mid c) |> <| inuse ::= rem target |> else s2 <| inuse ::= rem (o_mid c) |>).
+    assert (X4 : acctx (Some o) (Some o) s4) by (unfold s4; destruct b9; apply (acctx_irrelevant _ _ s2); try reflexivity; exact X2).
+    assert (I4 : same_id s4 o c) by (unfold s4; destruct b9; apply (same_id_irrelevant s2); try reflexivity; exact I2).
     assert (I5 : same_id (updop o (fill_reply None) s4) o c) by (apply same_id_updop; [apply kpres_fill|exact I4]).
     destruct I5 as (c5 & H5 & K5 & _).
-    apply acctx_acct. unfold s4 in *. destruct (fix9 (fx s)); apply (acctx_drop_xc None _ o c5); try exact H5;
+    apply acctx_acct. unfold s4 in *. destruct b9; apply (acctx_drop_xc None _ o c5); try exact H5;
       try (right; unfold is_search; now rewrite K5, Ek); apply acctx_settle; try apply settles_fill; exact X4.
   - (* Unbind *)
     assert (I1 : same_id (updop o (fill_reply None) s0) o c) by (apply same_id_updop; [apply kpres_fill|now apply same_id_refl]).
